@@ -5,7 +5,11 @@ import KrroodVerif.Drive.EqlParse
 namespace KrroodVerif.Drive.C01
 open KrroodVerif KrroodVerif.Eql KrroodVerif.Drive.EqlParse
 
+/-- `(sharednode)`: the fixed witness of F-C01-4 — `xf = x.f; and_(not_(xf), xf == False)` over three objects with
+`f = T, F, F`. One attribute node with two parents is outside the tree-shaped grammar the model covers, so the model
+makes no prediction (`*`); the specification is the first-order answer. -/
 def run (s : Sexp) : String :=
+  if s == .list [.atom "sharednode"] then "model=*\tspec=(o1) (o2)\ttrig=F-C01-4" else
   match parseCase s with
   | none => "error=bad-case"
   | some (w, q) =>
